@@ -146,10 +146,10 @@ _WRITE_CODE = RecStdout.write.__code__
 def _compose(statement, filename):
     """what `executing it directly` means for each statement form"""
     if isinstance(statement, str):
-        code = compile(statement, filename, 'exec')
+        code = compile(statement, filename, 'exec', dont_inherit=True)     # this module's __future__ flags must not leak into the script
         return partial(exec, code, {'__name__': REF_MODULE}), REF_MODULE, filename
     if isinstance(statement, Path):
-        code = compile(statement.read_text(), str(statement), 'exec')
+        code = compile(statement.read_text(), str(statement), 'exec', dont_inherit=True)
         return partial(exec, code, {'__name__': REF_MODULE}), REF_MODULE, str(statement)
     if isinstance(statement, CodeType):
         return partial(exec, statement, {'__name__': REF_MODULE}), REF_MODULE, statement.co_filename
